@@ -68,9 +68,15 @@ class LotkaVolterraOscillating:
         ).sum()
 
     def log_prob(self, value):
-        unnormalized_log_prob = self._gaussian.log_prob(value) + self._uniform.log_prob(
-            value
+        # The box only restricts the support: 0 inside, -inf outside (the constant density of the
+        # uniform itself must not be counted, the normalizer is the Gaussian mass of the box).
+        uniform_log_prob = self._uniform.log_prob(value)
+        support = torch.where(
+            torch.isinf(uniform_log_prob),
+            uniform_log_prob,
+            torch.zeros_like(uniform_log_prob),
         )
+        unnormalized_log_prob = self._gaussian.log_prob(value) + support
 
         return self._log_normalizer + unnormalized_log_prob
 
